@@ -190,6 +190,18 @@ def grid_scenarios(rng: random.Random, tier: str) -> list[dict]:
                 if t["form"] == "space" and " " in v:
                     t["form"] = "paren"
                 out.append(K.scenario(rng.choice(["auto", "auto", "namever", "kitty", "iterm2"]), t, rng=rng))
+    # $TERM_PROGRAM / $TERM_PROGRAM_VERSION fallback: XTVERSION answered (environment ignored) /
+    # unanswered / queries disabled  x  unset / lower-case / mixed-case names  x  version set / unset
+    for env_name in ("", "wezterm", "WezTerm", "iTerm.app", "iterm2", "ITERM2", "kitty", "Kitty", "vscode", "Apple_Terminal"):
+        for env_ver in ("", "3.4.19", "0.20.0", "0.19.9", "20230712-072601-f4abf8fd"):
+            for mode in ("answered", "unanswered", "disabled"):
+                if tier == "quick" and rng.random() < 0.4:
+                    continue
+                t = dict(K.BASE_TERM, sup=(["xtv"] if mode == "answered" else []) + ["da1", "kitty"],
+                         name=K.b(rng.choice(["foot", "Konsole", "WezTerm"])), ver=K.b("22.04.0"),
+                         envName=K.b(env_name), envVer=K.b(env_ver))
+                out.append(K.scenario(rng.choice(["namever", "namever", "iterm2", "auto", "kitty"]), t, rng=rng,
+                                      enabled=mode != "disabled"))
     for n in ("kitty", "konsole"):
         for kid, msg in ((32, "OK"), (31, "ENOENT"), (31, "EINVAL"), (1, "OK")):
             t = dict(K.BASE_TERM, sup=["xtv", "kitty", "da1"], name=K.b(n), ver=K.b("22.12.3" if n == "konsole" else "0.32.1"),
@@ -236,7 +248,9 @@ def pty_scenarios(rng: random.Random, tier: str) -> list[tuple[dict, list]]:
                  bg={"c": [K.b("%0*X" % (2, rng.randrange(256))) for _ in range(3)], "st": rng.choice(["st", "bel"])},
                  name=K.b(rng.choice(K.NAMES)), ver=K.b(rng.choice(["0.19.9", "0.20.0", "22.03.9", "22.04.0", "1.c", "0.20.x"])),
                  form=rng.choice(["paren", "space"]), xst=rng.choice(["st", "bel"]),
-                 cell=[rng.randrange(1, 40), rng.randrange(1, 20)], area=[rng.randrange(0, 2000), rng.randrange(0, 3000)])
+                 cell=[rng.randrange(1, 40), rng.randrange(1, 20)], area=[rng.randrange(0, 2000), rng.randrange(0, 3000)],
+                 envName=K.b(rng.choice(["", "", "WezTerm", "iTerm.app", "wezterm", "Kitty"])),
+                 envVer=K.b(rng.choice(["", "3.4.19", "0.21.0"])))
         cols, rows = rng.choice([(80, 24), (120, 40)])
         win = rng.choice([{"xpx": 0, "ypx": 0}, {"xpx": 0, "ypx": 0}, {"xpx": cols * 9, "ypx": rows * 18}, {"xpx": 7, "ypx": 500}])
         hist = op in ("colors", "namever", "cellsize") and rng.random() < 0.25
